@@ -5,7 +5,9 @@ pub mod c01;
 pub mod c02;
 pub mod c05;
 pub mod c06;
+pub mod c07;
 pub mod c08;
+pub mod c08_blocks;
 pub mod c10;
 pub mod c11;
 pub mod c12;
@@ -31,6 +33,7 @@ pub fn registry() -> Vec<PropDef> {
         PropDef { id: "C02", run: c02::run, replay: c02::replay },
         PropDef { id: "C05", run: c05::run, replay: c05::replay },
         PropDef { id: "C06", run: c06::run, replay: c06::replay },
+        PropDef { id: "C07", run: c07::run, replay: c07::replay },
         PropDef { id: "C08", run: c08::run, replay: c08::replay },
         PropDef { id: "C10", run: c10::run, replay: c10::replay },
         PropDef { id: "C11", run: c11::run, replay: c11::replay },
